@@ -695,6 +695,14 @@ class Dataset:
         return list(self._vars)
 
     def __getitem__(self, k):
+        if isinstance(k, (list, tuple)):
+            # ds[[names]]: the sub-Dataset of those variables (all coordinates kept)
+            out = self.copy(deep=True)
+            for n in k:
+                if n not in self._vars:
+                    raise KeyError(n)
+            out._vars = {n: out._vars[n] for n in k}
+            return out
         if k in self._vars:
             da = self._vars[k]
             da.nocoord = {d for d in da.dims if d in self._nocoord}
